@@ -197,6 +197,54 @@ def run(ctx):
                     sample={'banner': bl, 'recs': imp['recs']} if len(cov.samples) < 3 and imp['recs'] else None)
             lines.append(rc.report_line(peer, client, imp['banner']))
             expect.append((imp, inp))
+    # the same banner and the same lists with different measured sizes, one after the other in one process: the recommendations follow the ratings of
+    # each report, not those of an earlier one
+    for k in range(ctx.scale(12, 150)):
+        bl = r.choice(['SSH-2.0-OpenSSH_8.9p1', 'SSH-2.0-OpenSSH_7.4', 'SSH-2.0-dropbear_2020.81', 'SSH-2.0-libssh_0.9.6'])
+        base = pg.gen_peer(r, sizes=False)
+        base['key'] = r.sample(['rsa-sha2-512', 'rsa-sha2-256', 'ssh-rsa', 'ssh-ed25519'], r.randint(1, 3))
+        if r.random() < 0.5:
+            base['kex'] = ['diffie-hellman-group-exchange-sha256'] + base['kex'][:2]
+        for bits in r.sample([1024, 2048, 3072, 4096], 3):
+            peer = json.loads(json.dumps(base))
+            peer['host_keys'] = {t: {'hostkey_size': bits, 'ca_key_type': '', 'ca_key_size': 0} for t in peer['key'] if 'rsa' in t}
+            peer['dh'] = {t: bits for t in peer['kex'] if 'group-exchange' in t}
+            imp, recognised, sw, fs = evaluate_case(db, bl, peer, False)
+            for f_ in fs:
+                f_['input']['history'] = 'same lists audited before with other key sizes'
+            failures.extend(fs)
+            cov.add(('history', bl, json.dumps(peer, sort_keys=True)), recognised, tags=['same-lists-other-sizes'])
+    # … and through whole audits (the probes write the size findings): targets with the same banner and lists but RSA keys / moduli of different sizes, one
+    # after the other in this process; in every JSON document the key and kex algorithms rated fail / warn are exactly the ones recommended for removal or change
+    import fakenet as fn
+    for order in ([1024, 4096, 2048], [4096, 1024], [3072, 2048, 1024, 4096]):
+        for bl in (b'SSH-2.0-OpenSSH_8.9p1', b'SSH-2.0-OpenSSH_7.4'):
+            for bits in order:
+                srv = fn.simple_server(kex=('curve25519-sha256', 'diffie-hellman-group-exchange-sha256'), key=('rsa-sha2-512', 'rsa-sha2-256', 'ssh-ed25519'),
+                                       enc=('aes256-ctr',), mac=('hmac-sha2-256-etm@openssh.com',), banner=bl,
+                                       hostkeys={'rsa-sha2-512': fn.rsa_blob(bits), 'rsa-sha2-256': fn.rsa_blob(bits), 'ssh-ed25519': fn.ed25519_blob()},
+                                       gex=(lambda b_: (lambda mn, pf, mx: b_ if mn <= b_ <= mx else (None if mx < b_ else b_)))(bits))
+                code, out = fn.run_main(['-n', '--skip-rate-test', '-j', '10.13.0.1'], fn.FakeNet({'10.13.0.1': srv}), fresh=True)
+                cov.add(('whole-audit-history', bl, tuple(order), bits), True, tags=['whole-audit-history'])
+                try:
+                    doc = json.loads(out)
+                except ValueError:
+                    fail('whole_audit_no_json', {'banner': bl.decode(), 'order': order, 'bits': bits}, out[:200], 'a JSON document')
+                    continue
+                rec_rm = set()
+                for lvl, acts in doc['recommendations'].items():
+                    for act, cats in acts.items():
+                        if act in ('del', 'chg'):
+                            for cat, lst in cats.items():
+                                rec_rm |= {(cat, x['name']) for x in lst}
+                for cat in ('key', 'kex'):
+                    for e_ in doc[cat]:
+                        rated = bool(e_['notes'].get('fail') or e_['notes'].get('warn'))
+                        outside = any('A bug in OpenSSH causes it to fall back' in t for t in (e_['notes'].get('info') or []))
+                        if e_['algorithm'] in ('rsa-sha2-512', 'rsa-sha2-256', 'diffie-hellman-group-exchange-sha256') and not outside and rated != ((cat, e_['algorithm']) in rec_rm):
+                            fail('recommendation_differs_from_rating_after_other_audits', {'banner': bl.decode(), 'sizes_audited_in_order': order[:order.index(bits) + 1], 'algorithm': e_['algorithm']},
+                                 {'notes': e_['notes'], 'recommended_for_removal': (cat, e_['algorithm']) in rec_rm}, 'recommended for removal or change exactly when rated fail / warn')
+    fn.reset_dbs()
     model = ctx.driver(lines) if ctx.driver_ok else []
     for line, m, (imp, inp) in zip(lines, model, expect):
         d = rc.compare(rc.canon_model(m), imp) if 'ok' in m else ['model error']
